@@ -290,7 +290,7 @@ def w_align(ctx, rng, i):
             a_h = np.hstack([src, np.ones((len(src), 1))])
             cond = np.linalg.cond(a_h / np.abs(a_h).max(axis=0))
             rtol = max(1e-7, 1e-13 * cond ** 2)
-            if e > rtol * max(1.0, np.abs(tr).max(), np.abs(tgt).max()) or t.alignment_error() > rtol * max(1.0, np.abs(tgt).max()) * np.sqrt(len(src)):
+            if not (e <= rtol * max(1.0, np.abs(tr).max(), np.abs(tgt).max())) or not (t.alignment_error() <= rtol * max(1.0, np.abs(tgt).max()) * np.sqrt(len(src))):
                 ctx.fail("family_member_not_recovered", cls=kind, mech=str(sorted(opts.items())), err=float(e))
         disturb(ctx, rng, t, src, tgt, opts)
         # and a retarget with another synthesised target
